@@ -142,12 +142,25 @@ def _discharge_smt2(job):
                 rec["outside_class"] = findings.check_outside_class(kf, ob, con, timeout_ms)
         if tier == "thorough" and d["verdict"] == "unsat" and i % 7 == 0:
             rec["cvc5"] = cross_check(ob, d)
-        if d["verdict"] == "unsat" and (i % 10 == 0 or tier == "thorough"):
+        if d["verdict"] == "unsat" and (i % 5 == 0 or tier == "thorough"):
+            # vacuity guard: the hypotheses must be satisfiable; the quantifier-free part is decided quickly and catches
+            # contradictory path facts even when the full set comes back 'unknown'
+            from pyvc.vc import has_quant
             s = z3.Solver()
-            s.set("timeout", 1500)
+            s.set("timeout", 2000)
             for h in hyps:
-                s.add(h)
-            rec["hyps_sat"] = str(s.check())
+                if not has_quant(h):
+                    s.add(h)
+            r_qf = s.check()
+            if r_qf == z3.unsat:
+                rec["hyps_sat"] = "unsat"
+            else:
+                s = z3.Solver()
+                s.set("timeout", 1500)
+                for h in hyps:
+                    s.add(h)
+                r_all = s.check()
+                rec["hyps_sat"] = "unsat" if r_all == z3.unsat else ("sat" if r_all == z3.sat else "qf-sat" if r_qf == z3.sat else "unknown")
         if i < 3 or d["verdict"] != "unsat":
             rec["smt_head"] = str(goal)[:300]
         return rec
@@ -422,7 +435,7 @@ def assemble(prop, tier, seed, spec, quals, lem, results, t_start, early_standin
             "solver_time_s": round(sum(o["time_s"] for o in obs), 2),
             "ladder": {k: sum(1 for o in discharged if (o.get("tried") or ["full"])[-1] == k) for k in ("full", "quantifier-free-hyps", "sliced", "full-long", "seed7")},
             "samples": [dict(name=o["name"], verdict=o["verdict"], goal_head=o.get("smt_head", "")) for o in obs[:4]],
-            "vacuity": {"hyps_checked": sum(1 for o in obs if "hyps_sat" in o), "hyps_sat": sum(1 for o in obs if o.get("hyps_sat") == "sat"),
+            "vacuity": {"hyps_checked": sum(1 for o in obs if "hyps_sat" in o), "hyps_sat": sum(1 for o in obs if o.get("hyps_sat") in ("sat", "qf-sat")),
                         "hyps_unknown": sum(1 for o in obs if o.get("hyps_sat") == "unknown")},
             "known_findings": sorted({o["known_finding"] for o in known}),
             "not_discharged": [dict(name=o["name"], verdict=o["verdict"]) for o in failed if o not in known][:20],
